@@ -22,7 +22,7 @@ fn net_text(seq: &Value, variant: usize) -> Option<String> {
       "i" => "iota".to_string(),
       "I" => pick(&["IOTA", "Iota", "iOtA"]),
       "a" => pick(&["m", "s", "r", "z"]),
-      "A" => pick(&["M", "S", "R"]),
+      "A" => pick(&["M", "A", "S", "F", "R", "D"]), // incl. letters that are also hex digits
       "1" => pick(&["0", "7", "9"]),
       "-" => pick(&["-", "_", ".", "%"]),
       o => tool_error(&format!("bad network symbol {o}")),
